@@ -1090,7 +1090,13 @@ fn scenarios(f: &mut Forest, out: &mut Out, args: &Args) {
         match res {
             Ok(Ok(IO::Value(v))) => {
                 let gv = verif::graph(v.get_value());
-                check_owned(f, &gv, f.ths[ci].heap, f.rel(ti, ci), &case, out, "spawn_on");
+                if std::env::var("C13_DEBUG").is_ok() {
+                    eprintln!("spawn_on {} -> {}: root {:?}", caller, target, gv.root);
+                    for n in &gv.nodes {
+                        eprintln!("   {:#x} owner {:?} gen {} {} {:?} {:?}", n.addr, f.heap_of_gc(n.owner), n.generation, n.kind, n.label, n.edges);
+                    }
+                }
+                check_owned(f, &gv, f.ths[ci].heap, &format!("spawn_on-{}", f.rel(ci, ti)), &case, out, "spawn_on");
                 out.n += 1;
             }
             Ok(Ok(IO::Exception(e))) => out.hist.add(&format!("spawn_on-exception:{}", esc(&e).chars().take(40).collect::<String>())),
